@@ -440,6 +440,13 @@ def execute(case, keep_text=False):
         if not tables_complete(-1):
             out.digest = log.digest()
             return out
+        msg = c07_real.defaults_as_declared(model)
+        if msg:
+            out.violations.append(Violation(
+                'views', 'model-tables:defaults',
+                'a freshly built model offers ' + msg, -1))
+            out.digest = log.digest()
+            return out
     sig = []
     last_vec = [None]
     other = [None]
